@@ -12,12 +12,14 @@ namespace FIX8 { namespace UTEST { const F8MetaCntx& ctx(); } namespace F44 { co
 // ---- virtual clock: CLOCK_REALTIME is served from a harness variable when enabled (Tickval(true), Tickval::now(), time())
 #include <sys/syscall.h>
 #include <time.h>
-namespace vf { bool vclock_on(false); struct timespec vclock_now {0, 0}; long long sleeps(0); }
+#include <atomic>
+namespace vf { std::atomic<bool> vclock_on(false); std::atomic<long long> vclock_ns(0); std::atomic<long long> sleeps(0); }
 extern "C" int clock_gettime(clockid_t id, struct timespec *ts)
 {
 	if (id == CLOCK_REALTIME && vf::vclock_on)
 	{
-		*ts = vf::vclock_now;
+		const long long ns(vf::vclock_ns.load());
+		ts->tv_sec = ns / 1000000000LL; ts->tv_nsec = ns % 1000000000LL;
 		return 0;
 	}
 	return static_cast<int>(syscall(SYS_clock_gettime, id, ts));
@@ -52,7 +54,7 @@ const FIX8::F8MetaCntx& schema(const std::string& name)
 static Reg r_clock("clock", [](std::istringstream& is) {
 	std::string op; is >> op;
 	if (op == "off") vclock_on = false;
-	else { long long sec(0), nsec(0); is >> sec >> nsec; vclock_now.tv_sec = sec; vclock_now.tv_nsec = nsec; vclock_on = true; }
+	else { long long sec(0), nsec(0); is >> sec >> nsec; vclock_ns = sec * 1000000000LL + nsec; vclock_on = true; }
 	return std::string("{\"ok\":true}");
 });
 
